@@ -140,7 +140,13 @@ func outcomeKind(f string) string {
 func fieldAgrees(name string, p *Probe) bool {
 	iv, mv := p.Impl[name], p.Model[name]
 	if p.Loose && looseField[name] {
-		// the tree holds a decoded map/slice whose text is not modelled: only "returns normally" is compared
+		// the tree holds a decoded map/slice whose text is not modelled: only "returns normally" is compared.  The
+		// unmodelled text may itself make the implementation refuse early (a NUL byte or invalid UTF-8 inside the map is an
+		// error of the literal function) before it reaches a node on which the model goes on to panic: an implementation
+		// error is therefore compatible with any model outcome here
+		if iv == "err" {
+			return true
+		}
 		return (iv == "panic") == (mv == "panic")
 	}
 	if printedField[name] {
